@@ -8,6 +8,9 @@ from common import apply as _apply_unused
 
 def apply(rep, rid, what, res, floor):
     rep.rule(rid, what)
+    if getattr(res, "broken", None):
+        rep.broken.append((rid, res.broken))
+        return
     inst, findings = res[0], res[1]
     bad = {f["key"] for f in findings}
     for key, info in inst:
@@ -43,7 +46,7 @@ def run(prog, rep, tier):
     apply(rep, "R7", "`no stack` is returned only when the upstream pull returned none", r_stream.r7(prog), 60)
     r8 = r_stream.r8(prog)
     apply(rep, "R8", "values cached in the execution state for the current input are not left moved-from", r8, 1)
-    if [i for i in r8[0] if i[0] == "R8:functions-with-state-references"][0][1]["scanned"] < 25:
+    if not getattr(r8, "broken", None) and [i for i in r8[0] if i[0] == "R8:functions-with-state-references"][0][1]["scanned"] < 25:
         raise Broken("R8 saw fewer functions holding a reference into the execution state than confirmed by hand (25)")
     from common import control
     control(rep, "R8", r_stream.r8, ["R8:verif_control_steals::next_bad:m_str"])
